@@ -6,7 +6,7 @@ from .. import linkmodel as lm
 from . import c02
 
 NEEDS_WILD = True
-LEAN_MODULES = ["WildModel.Props.C33"]
+LEAN_MODULES = ["WildModel.Props.C33", "WildModel.Props.C33Seq"]
 THEOREMS = [
     "Wild.Link.wrap_redirects",
     "Wild.Link.real_redirects",
@@ -15,6 +15,8 @@ THEOREMS = [
     "Wild.Link.wrap_eq_gnu_partial",
     "Wild.Link.wrap_missing_witness",
     "Wild.Link.C33_full_false",
+    "Wild.Link.overrides_repeated_witness",
+    "Wild.Link.overrides_nodup_spec",
 ]
 LEVEL = "proof"
 TECHNIQUE = "Lean 4 theorems over a name-override model of apply_wrapped_symbol_overrides composed with the M-Link resolution model + whole-link differential correspondence, GNU ld as oracle"
@@ -22,6 +24,7 @@ TRUSTED = [
     "model lean/WildModel/Model/Wrap.lean (wrapLookupName/wrapTransform) of symbol_db.rs apply_wrapped_symbol_overrides, composed with Model/Link.lean; tied by whole-link correspondence `lkw` "
     "on generated programs with wrapped symbols defined/referenced across objects, archives and shared objects",
     "GNU ld 2.40 as the oracle for --wrap semantics (ld.texi: undefined references to S -> __wrap_S, to __real_S -> S)",
+    "the override LOOP of apply_wrapped_symbol_overrides is modelled separately (Props/C33Seq.lean applyOverrides) and proved equal to the set-based model for duplicate-free --wrap lists; that args.wrap is duplicate-free is what fix e8951e6 establishes (tied by the repeated---wrap cases of the correspondence)",
 ]
 RULE = "random link inputs over names S, __wrap_S, __real_S for 1-2 wrapped S; non-trivial = some reference is actually redirected; distinct by request line"
 ASSUMPTIONS = ["no input defines a symbol literally named __real_S", "default-visibility references"]
